@@ -9,6 +9,7 @@ import (
 	"errors"
 	"fmt"
 	"io"
+	"math"
 	"os"
 	"sort"
 	"strconv"
@@ -453,8 +454,24 @@ func builtinRepeatFunc(arg Object, count int) (ret Object, err error) {
 		)
 	}
 
+	// A size that cannot even be attempted makes the runtime (or
+	// strings/bytes.Repeat) panic, report it as an error instead.
+	defer func() {
+		if r := recover(); r != nil {
+			ret, err = nil, ErrIndexOutOfBounds.NewError(
+				"repeat count "+strconv.Itoa(count)+" is too large")
+		}
+	}()
+
 	switch v := arg.(type) {
 	case Array:
+		if len(v) == 0 {
+			return Array{}, nil
+		}
+		if count > math.MaxInt/len(v) {
+			return nil, ErrIndexOutOfBounds.NewError(
+				"repeat count " + strconv.Itoa(count) + " is too large")
+		}
 		out := make(Array, 0, len(v)*count)
 		for i := 0; i < count; i++ {
 			out = append(out, v...)
